@@ -267,8 +267,11 @@ def r14d(run):
 def r14e(run):
     f = run.repo.func(TR, "TypeTransformer.to_datetime")
     fa = analysis(f)
+    # the flag is found by role: a local assigned from membership / suffix tests for the UTC markers on the text
     flag = [n for n in fa.cfg.nodes if n.kind == "stmt" and isinstance(n.ast, ast.Assign)
-            and unparse(n.ast.targets[0]) == "is_utc"]
+            and isinstance(n.ast.targets[0], ast.Name) and isinstance(n.ast.value, (ast.BoolOp, ast.Compare, ast.Call))
+            and any(isinstance(x, ast.Constant) and x.value in ("GMT", "UTC", "Z") for x in ast.walk(n.ast.value))
+            and not any(isinstance(x, ast.Call) and call_attr(x) in ("replace", "rstrip", "strip") for x in ast.walk(n.ast.value))]
     strip = [n for n in fa.cfg.nodes if n.kind == "stmt" and isinstance(n.ast, ast.Assign)
              and unparse(n.ast.targets[0]) == "data" and ("rstrip('Z')" in unparse(n.ast.value).replace('"', "'")
                                                            or "replace('UTC'" in unparse(n.ast.value).replace('"', "'"))]
@@ -281,6 +284,7 @@ def r14e(run):
                   necessity="'2020-01-02T03:04:05Z' parses to a naive datetime")
         return
     fl = flag[0]
+    U = fl.ast.targets[0].id
     total = 0
     for r in fa.cfg.nodes:
         if r.kind != "stmt" or not isinstance(r.ast, ast.Return) or not fa.cfg.is_live(r):
@@ -310,18 +314,18 @@ def r14e(run):
             if isinstance(e, ast.Name):
                 exprs += [o.at.ast.value for o in prov(fa).of_name(r, e.id)
                           if o.at is not None and isinstance(o.at.ast, ast.Assign)]
-            ok = any(isinstance(x, ast.IfExp) and unparse(x.test) == "is_utc" and "utc" in unparse(x.body)
+            ok = any(isinstance(x, ast.IfExp) and unparse(x.test) == U and "utc" in unparse(x.body)
                      for ex in exprs for x in ast.walk(ex))
         if isinstance(v, ast.Name):
             # some definition of v reaching the return re-attaches UTC under the flag
             for d in fa.rd.defs_of(r, v.id):
                 if d.kind == "stmt" and isinstance(d.ast, ast.Assign) and "tzinfo" in unparse(d.ast.value) \
-                        and ("is_utc", True) in _facts(fa, d):
+                        and (U, True) in _facts(fa, d):
                     ok = True
         run.check("R14e", f, f"`{norm_stmt(r.ast)}` (parsed from the stripped text) re-attaches UTC when the marker was seen",
                   ok, construct=f"UTC flag ignored on a return of {call_attr(parsed[0])}(data)",
                   message=f"to_datetime returns `{unparse(parsed[0])[:50]}` of the text whose 'Z'/'UTC'/'GMT' marker was "
-                          f"stripped without applying `is_utc`",
+                          f"stripped without applying `{U}`",
                   necessity="a value encoded with a UTC marker comes back naive: the parsed instance is not equal to the "
                             "original (aware vs naive)", node=r.ast)
     run.floor("R14e", "returns parsed from the stripped text", total, 1)
